@@ -19,15 +19,19 @@ ZS    == ("a" :> (N1("A", R(300, {1})) @@ N1("RRSIG/A", R(300, {1})) @@ N1("NSEC
 \* an empty node and an empty rdataset (plain zones only)
 ZE    == ZApex @@ ("a" :> EmptyNode) @@ ("b.a" :> N1("A", EmptyRds))
 ZNone == [x \in {} |-> 0]
+
 \* trimmed variants for the deeper bounded runs
 ZC1   == ("@" :> N1("SOA", R(300, {1}))) @@ ("a" :> (N1("CNAME", R(300, {1})) @@ N1("NSEC", R(600, {1}))))
 ZA1   == ("@" :> N1("SOA", R(300, {1}))) @@ ("a" :> N1("A", R(600, {1})))
+\* an apex with SOA but no NS, and with NS but no SOA (check_origin)
+ZN1   == ("@" :> N1("NS", R(300, {1, 2}))) @@ ("a" :> N1("A", R(300, {2})))
 MCInitTrim == {ZNone, ZC1, ZA1}
-
-MCInitAll == {ZNone, ZApex, ZA, ZC, ZD, ZS, ZE}
+MCInitTrim2 == {ZNone, ZC1}
+MCInitDeep == {ZNone, "a" :> (N1("CNAME", R(300, {1})) @@ N1("NSEC", R(300, {1})))}
+MCInitAll == {ZNone, ZApex, ZA, ZC, ZD, ZS, ZE, ZA1, ZN1}
 MCInitSmall == {ZNone, ZA, ZC}
 MCInitMid == {ZA, ZC, ZD, ZE}
-MCInitQ == {ZNone, ZC, ZD, ZE}
+MCInitQ == {ZNone, ZC, ZD, ZE, ZA1, ZN1}
 MCInitC == {ZC}
 MCInitA == {ZA}
 
